@@ -30,7 +30,7 @@ def _native_sets():
     substitutes for the `set` / `frozenset` constructors. Every value that reaches the library here is a
     concrete label (table decoding), so its sets can be CPython's own: the traced run then iterates sets
     exactly like the native replay does, and `Rules.non_terminals` / the marked sets of `is_empty` stop
-    being nested lazy set models (measured: 2.4 s -> see MANIFEST per intersection path)."""
+    being nested lazy set models (measured on c17_inter: 2.8 s -> 0.48 s per path)."""
     try:
         import crosshair.core_and_libs  # noqa: F401  (makes the registrations)
         from crosshair import core as _core
@@ -71,6 +71,7 @@ IDX = ["f", "g"]
 TERMS = ["a", "epsilon"]
 KINDS = ["end", "prod", "cons", "dup"]
 FACT = [1, 1, 2, 6, 24]
+NG_MAX = 64
 
 # (number of variables, of index symbols, of terminals)
 FAMILIES = [(2, 1, 1), (2, 2, 1), (3, 1, 1), (3, 2, 1), (2, 1, 2), (3, 2, 2)]
@@ -142,7 +143,7 @@ def family_ok(fam, c, m, ng, grp):
     n = len(c)
     pf, pm, pg = chx.PIN.get("fam"), chx.PIN.get("m"), chx.PIN.get("ng")
     if isinstance(pf, int) and isinstance(pm, int) and isinstance(pg, int) \
-            and 0 <= pf < len(NR) and 0 <= pm <= n and 1 <= pg <= 8:
+            and 0 <= pf < len(NR) and 0 <= pm <= n and 1 <= pg <= NG_MAX:
         ok = (fam == pf) & (m == pm) & (ng == pg) & (0 <= grp) & (grp < pg)
         total = 0
         for i in range(n):
@@ -174,7 +175,7 @@ def family_ok(fam, c, m, ng, grp):
         ok = ok & (0 <= c[i]) & ((i < m) | (c[i] == 0))
         if i + 1 < n:
             ok = ok & ((i + 1 >= m) | (c[i] <= c[i + 1]))
-    ok = ok & (1 <= ng) & (ng <= 8) & (0 <= grp) & (grp < ng) & (total % ng == grp)
+    ok = ok & (1 <= ng) & (ng <= NG_MAX) & (0 <= grp) & (grp < ng) & (total % ng == grp)
     return ok
 
 
@@ -340,7 +341,7 @@ def c17_verdict(fam: int, m: int, c: C4, perm: int, optim: int, shuf: int, ng: i
     order = list(enc.PERMS[mm][pi])
     op = enc.pick(optim, 9)
     sh = enc.pick(shuf, FACT[mm])
-    gn = enc.pick(ng, 9)
+    gn = pick_bin(ng, NG_MAX + 1)
     raw = (fm, mm, cc, pi, op, sh, gn, sum(cc) % gn)
     chx.enter("c17_verdict", raw)
     ordered = [rules[i] for i in order]
@@ -444,7 +445,7 @@ def c17_inter(fam: int, m: int, c: C3, perm: int, optim: int, d0: int, d1: int, 
     op = enc.pick(optim, 8)
     c0, c1, cs, cf = enc.pick(d0, 3), enc.pick(d1, 3), enc.pick(start, 2), enc.pick(finals, 4)
     edges, st, fi = decode_dfa(c0, c1, cs, cf)
-    gn = enc.pick(ng, 9)
+    gn = pick_bin(ng, NG_MAX + 1)
     raw = (fm, mm, cc, pi, op, c0, c1, cs, cf, gn, sum(cc) % gn)
     chx.enter("c17_inter", raw)
     ordered = [rules[i] for i in order]
@@ -456,15 +457,91 @@ def c17_inter(fam: int, m: int, c: C3, perm: int, optim: int, d0: int, d1: int, 
 
 
 # ----------------------------------------------------------------------------------------
-# shards
+# shards (every shard pins fam, m, ng, grp; sizes: <= ~1500 inputs quick, <= ~6500 thorough)
+
+def _multisets(fam, m):
+    """number of non-decreasing m-tuples of rule codes of the family"""
+    import math
+    return math.comb(NR[fam] + m - 1, m)
+
+
+def _split(fam, m, per_shard, factor=1):
+    """ng such that one (ng, grp) group x `factor` other free combinations stays under per_shard"""
+    ng = 1
+    while _multisets(fam, m) * factor / ng > per_shard and ng < NG_MAX:
+        ng *= 2
+    return ng
+
+
+def _verdict_block(fam, m, per_shard, factor=1, **pins):
+    ng = _split(fam, m, per_shard, factor)
+    return product_pins(fam=[fam], m=[m], ng=[ng], grp=list(range(ng)), **pins)
+
+
+M4_PERMS = [0, 23, 9, 16, 18, 6, 2, 1]   # identity, reverse, the 3 rotations, the 3 adjacent swaps
+
 
 def _shards_verdict(tier):
-    return (product_pins(fam=[0], m=[3], perm=[0], optim=[0, 2, 4, 6], shuf=[0], ng=[4], grp=[0]) +
-            product_pins(fam=[0], m=[3], perm=[0], optim=[8], shuf=[3], ng=[4], grp=[0]))
+    q = 1300
+    out = []
+    # fam 0 = {S,A} x {f} x {a}: 18 rules; 1140 multisets of 3 rules
+    out += _verdict_block(0, 3, q, optim=[0], perm=[0, 1, 2, 3, 4, 5], shuf=[0])        # every order
+    out += _verdict_block(0, 3, q, optim=[7], perm=[0, 5], shuf=[0])                    # the default optim
+    out += _verdict_block(0, 3, q, optim=[1, 2, 3, 4, 5, 6], perm=[0], shuf=[0])        # every heuristic
+    out += _verdict_block(0, 3, q, optim=[8], perm=[0], shuf=[1, 5])                    # shuffle stub
+    # 0..2 rules: every optim, every order, every shuffle (nothing else pinned)
+    out += product_pins(fam=[0], m=[2], ng=[4], grp=[0, 1, 2, 3])
+    out += product_pins(fam=[0], m=[0, 1], ng=[1], grp=[0])
+    # fam 1 = {S,A} x {f,g}: 26 rules, 3276 multisets of 3 (pushed and consumed index may differ)
+    out += _verdict_block(1, 3, q, optim=[7], perm=[0], shuf=[0])
+    out += _verdict_block(1, 3, q, optim=[0], perm=[5], shuf=[0])
+    # 4 rules over fam 0 (5985 multisets): default optim, given order
+    out += _verdict_block(0, 4, q, optim=[7], perm=[0], shuf=[0])
+    if tier == "quick":
+        return out
+    t = 6500
+    out += _verdict_block(0, 4, t, optim=[0], perm=M4_PERMS, shuf=[0])
+    out += _verdict_block(0, 3, q, optim=[8], perm=[0], shuf=[2, 3, 4])
+    out += _verdict_block(0, 3, q, optim=[7], perm=[1, 2, 3, 4], shuf=[0])
+    out += _verdict_block(1, 3, t, optim=[0], perm=[0, 1, 2, 3, 4], shuf=[0])
+    out += _verdict_block(1, 3, t, optim=[1, 2, 3, 4, 5, 6], perm=[0], shuf=[0])
+    out += _verdict_block(1, 3, t, optim=[7], perm=[5], shuf=[0])
+    out += _verdict_block(2, 3, t, optim=[7], perm=[0], shuf=[0])                       # {S,A,B} x {f}: 19600
+    out += _verdict_block(3, 3, t, optim=[7], perm=[0], shuf=[0])                       # {S,A,B} x {f,g}: 50116
+    out += _verdict_block(3, 3, t, optim=[0], perm=[5], shuf=[0])
+    out += _verdict_block(1, 4, t, optim=[7], perm=[0], shuf=[0])                       # 23751
+    out += _verdict_block(5, 2, t, factor=20)                                           # 2415 x everything
+    return out
 
 
 def _shards_inter(tier):
-    return product_pins(fam=[4], m=[2], perm=[0], optim=[0, 7], start=[1], finals=[2], d0=[2], ng=[1], grp=[0])
+    out = []
+    # fam 4 = {S,A} x {f} x {a, epsilon}: 20 rules, 210 multisets of 2; DFAs with start state 0
+    out += product_pins(fam=[4], m=[2], ng=[1], grp=[0], optim=[0], perm=[0], start=[1],
+                        finals=[1, 2, 3], d0=[0, 1, 2])                                 # d1 free: 630 each
+    out += product_pins(fam=[4], m=[2], ng=[1], grp=[0], optim=[7], perm=[0], start=[1],
+                        d0=[2], d1=[1])                                                 # finals free: 840
+    out += product_pins(fam=[4], m=[2], ng=[1], grp=[0], optim=[0], perm=[1], start=[0],
+                        d0=[2], d1=[1])                                                 # no start state
+    # one rule, every optim 0..7, every DFA with a start state and delta(0,a)=1
+    out += product_pins(fam=[4], m=[1], ng=[1], grp=[0], start=[1], d0=[2])             # 20*8*3*4 = 1920
+    # three rules containing S->a (c0 = 0) or S->epsilon but not S->a (c0 = 1)
+    out += product_pins(fam=[4], m=[3], ng=[1], grp=[0], optim=[0], perm=[0], start=[1], d0=[2],
+                        c0=[0, 1], finals=[1, 2])                                       # d1 free: ~600 each
+    if tier == "quick":
+        return out
+    out += product_pins(fam=[4], m=[3], ng=[2], grp=[0, 1], optim=[0], perm=[0], start=[1],
+                        finals=[1, 2, 3], d0=[0, 1, 2])                                 # 1540 x 27 DFAs
+    out += product_pins(fam=[4], m=[2], ng=[1], grp=[0], optim=[7], perm=[0, 1], start=[1],
+                        finals=[1, 2, 3], d0=[0, 1])
+    out += product_pins(fam=[4], m=[2], ng=[1], grp=[0], optim=[1, 2, 3, 4, 5, 6], perm=[0], start=[1],
+                        d0=[2], finals=[1, 2])
+    out += product_pins(fam=[4], m=[2], ng=[1], grp=[0], optim=[0], perm=[1], start=[1],
+                        finals=[1, 2, 3], d0=[0, 1, 2])
+    out += product_pins(fam=[5], m=[2], ng=[2], grp=[0, 1], optim=[0], perm=[0], start=[1], d0=[2],
+                        finals=[1, 2, 3])                                               # 2415 x 9 DFAs
+    out += product_pins(fam=[4], m=[2], ng=[1], grp=[0], optim=[0], perm=[0], start=[0])  # no start: 36 DFAs
+    return out
 
 
 FUNCS = ["Rules.__init__", "IndexedGrammar.__init__", "IndexedGrammar.is_empty", "IndexedGrammar.__bool__",
@@ -480,15 +557,43 @@ FUNCS_INTER = FUNCS + ["IndexedGrammar.intersection", "FiniteAutomaton.to_fst", 
                        "FST._extract_fst_epsilon_intersection", "FST._extract_fst_duplication_rules_intersection"]
 
 STUB_TEXT = ("random.shuffle inside pyformlang.indexed_grammar.rule_ordering (optim 8) is replaced, in the "
-             "harness process only, by the permutation number `shuf` (a symbolic input, all m! values inside "
-             "the bound); /repo is not touched")
+             "harness process only, by the permutation number `shuf` (a symbolic input); /repo is not touched")
+CH_TEXT = ("CrossHair configuration local to C17 workers: the set/frozenset/dict constructor substitutes are "
+           "un-registered (all labels are concrete; DESIGN 2.7 contingency) and the sub-contract enforcement "
+           "tracer is neutralised (no callee carries a contract)")
+ASSUME = ["start variable is the default 'S' (rule_ordering and FST.intersection hard-code it)",
+          "pyformlang.regular_expression has been imported before IndexedGrammar.intersection is called "
+          "(the method reads it as a package attribute without importing it; the library's tests import it)",
+          "regular languages are given as DeterministicFiniteAutomaton objects with <= 2 states over {a} "
+          "(Regex operands make the library's own emptiness run for minutes natively: a* on S->a, S->SS = 75 s)",
+          CH_TEXT]
+
+Q_VERDICT = ("rule lists over variables {S,A}, terminal a, start S: (i) all 1140 multisets of 3 rules over index "
+             "{f} (18 rules: end, production, consumption, duplication; duplicates included) x all 6 orders at "
+             "optim 0, x orders {given, reversed} at optim 7, x given order at optim 1-6, x optim 8 with shuffle "
+             "permutations {1,5}; (ii) all lists of 0-2 such rules x every order x every optim 0-8 x every "
+             "shuffle; (iii) all 3276 multisets of 3 rules over indices {f,g} (26 rules) at optim 7 given order "
+             "and optim 0 reversed order; (iv) all 5985 multisets of 4 rules over index {f} at optim 7")
+T_VERDICT = ("quick, plus: 4 rules over {S,A}x{f} at optim 0 in 8 orders (identity, reverse, rotations, adjacent "
+             "swaps); 3 rules over {S,A}x{f}: optim 8 with every shuffle, optim 7 in every order; 3 rules over "
+             "{S,A}x{f,g}: every order at optim 0, optim 1-6, optim 7 reversed; all 19600 multisets of 3 rules "
+             "over {S,A,B}x{f} and all 50116 over {S,A,B}x{f,g} (66 rules) at optim 7 (the latter also optim 0 "
+             "reversed); all 23751 multisets of 4 rules over {S,A}x{f,g} at optim 7; all 2415 pairs of rules over "
+             "{S,A,B}x{f,g}x{a,epsilon} x every order x every optim x every shuffle")
+Q_INTER = ("rule lists over {S,A}, index {f}, terminals {a, 'epsilon'} (20 rules), start S: all 210 multisets of 2 "
+           "rules x all 27 DFAs over {a} with states {0,1}, start 0, non-empty final set (optim 0); x the 4 final "
+           "sets of the 2-cycle DFA at optim 7; x the same without start state; every single rule x optim 0-7 x "
+           "the 12 DFAs with delta(0,a)=1; all 400 multisets of 3 rules whose least rule is S->a or S->epsilon x "
+           "6 DFAs (delta(0,a)=1, final set {0} or {1})")
+T_INTER = ("quick, plus: all 1540 multisets of 3 rules x 27 DFAs (optim 0); 2 rules x 18 DFAs x both orders at "
+           "optim 7; 2 rules x optim 1-6 x 6 DFAs; 2 rules in reversed order x 27 DFAs; all 2415 pairs of rules "
+           "over {S,A,B}x{f,g}x{a,epsilon} x 9 DFAs; 2 rules x all 36 DFAs without start state")
 
 CONDS = [
-    Cond("C17", c17_verdict, _shards_verdict,
-         {"quick": "TODO", "thorough": "TODO"},
+    Cond("C17", c17_verdict, _shards_verdict, {"quick": Q_VERDICT, "thorough": T_VERDICT},
          FUNCS, "grammar has an end rule, a rule with S on the left and a non-end rule",
-         stubs=[STUB_TEXT]),
-    Cond("C17", c17_inter, _shards_inter,
-         {"quick": "TODO", "thorough": "TODO"},
-         FUNCS_INTER, "non-trivial grammar and a DFA with a start state, a final state and an edge"),
+         stubs=[STUB_TEXT], assumptions=ASSUME, shard_timeout={"quick": 1500, "thorough": 6000}),
+    Cond("C17", c17_inter, _shards_inter, {"quick": Q_INTER, "thorough": T_INTER},
+         FUNCS_INTER, "non-trivial grammar and a DFA with a start state, a final state and an edge",
+         stubs=[], assumptions=ASSUME, shard_timeout={"quick": 1500, "thorough": 6000}),
 ]
